@@ -195,8 +195,19 @@ def _flat(x):
     return [x]
 
 
+ENV_HOOK = None    # optional callable(env) -> None: lets a harness enforce its case assumptions on pinned inputs
+
+
 def pick_env(dom, var_ids, seed, attempt=0):
     """seeded small rationals; units get perfect squares so fractional powers stay rational"""
+    env = _pick_env(dom, var_ids, seed, attempt)
+    hook = getattr(dom, "env_hook", None)
+    if hook is not None:
+        hook(env)
+    return env
+
+
+def _pick_env(dom, var_ids, seed, attempt=0):
     rnd = random.Random(seed * 7919 + attempt * 104729 + 17)
     env = {}
     for v in sorted(var_ids):
